@@ -63,8 +63,9 @@ def string_udt(draw, used_names, used_tids):
 def fresh_tid(draw, used, predefined=False):
     for _ in range(100):
         if predefined:
-            t = draw(st.one_of(st.integers(0x001, 0x0BF), st.integers(0x0E0, 0x0FF), st.integers(0xF00, 0xFCD), st.integers(0xFCF, 0xFFF),
-                               st.sampled_from([0x0FF, 0xF00, 0xFFF, 0x001])))
+            # every id outside the user range, including those that equal an elementary type code (0x0C1-0x0DE)
+            t = draw(st.one_of(st.integers(0x001, 0x0FF), st.integers(0x0C1, 0x0DE), st.integers(0xF00, 0xFCD), st.integers(0xFCF, 0xFFF),
+                               st.sampled_from([0x0FF, 0xF00, 0xFFF, 0x001, 0x0C1, 0x0C4, 0x0D3])))
         else:
             t = draw(st.one_of(st.integers(0x100, 0xEFF), st.sampled_from([0x100, 0x101, 0xEFE, 0xEFF])))
         if t not in used:
@@ -238,7 +239,7 @@ def projects(draw, size_bias=None, max_tags=10, long_names=False):
     # module tags (kept by the library as user tags)
     struct_types = [u["name"] for u in udts if u.get("string") is None]
     for k in range(draw(st.sampled_from([0, 0, 1, 2]))):
-        mod = draw(st.sampled_from(["Local", "Rack_A", "ENBT"]))
+        mod = draw(st.sampled_from(["Local", "Rack_A", "ENBT", "HeatMap", "LineCxn", "IOMap"]))   # module names are ordinary identifiers
         form = draw(st.sampled_from(["%s:%s", "%s:%d:%s"]))
         letter = draw(st.sampled_from(["I", "O", "C", "S"]))
         name = form % ((mod, letter) if form.count("%") == 2 else (mod, draw(st.integers(0, 16)), letter))
